@@ -3,7 +3,7 @@ CONSTANTS
   N = 1
   MaxTime = 16
   MaxSkew = 1
-  Budget = 2
+  Budget = 1
   Variant = "design"
   Faults <- AllFaults
   MaxToggle = 3
